@@ -79,7 +79,9 @@ def oracle(case, obs):
         tree = obs[2] if obs[0] == "noexec" else (obs[1].get("tree") if obs[0] == "ok" else None)
         if tree is None:
             return ["well-formed program rejected: %s" % (obs,)]
-        return [] if tree.replace(" ", "") == case["expect_tree"] else \
+        import re
+        # only the masks are compared (the numbers in the rendering, in order), not the rendering itself
+        return [] if re.findall(r"\d+", tree) == re.findall(r"\d+", case["expect_tree"]) else \
             ["operator queue %s, expected %s: the k-th declared qubit is not bit k" % (tree, case["expect_tree"])]
     try:
         want = pyref.run(case["chunks"][0], [])
